@@ -12,9 +12,10 @@ import (
 )
 
 type aval struct {
-	k int // 0 unknown, 1 bool, 2 string, 3 undefined (no feasible definition yet)
+	k int // 0 unknown, 1 bool, 2 string, 3 undefined (no feasible definition yet), 4 int
 	b bool
 	s string
+	i int64
 }
 
 var unknownV = aval{}
@@ -22,6 +23,7 @@ var undefV = aval{k: 3}
 
 func boolV(b bool) aval     { return aval{k: 1, b: b} }
 func strV(s string) aval    { return aval{k: 2, s: s} }
+func intV(i int64) aval     { return aval{k: 4, i: i} }
 func (a aval) isBool() bool { return a.k == 1 }
 
 func join(a, b aval) aval {
@@ -200,6 +202,10 @@ func (e *evaluator) eval1(v ssa.Value, depth int) aval {
 			return boolV(constant.BoolVal(v.Value))
 		case constant.String:
 			return strV(constant.StringVal(v.Value))
+		case constant.Int:
+			if i, ok := constant.Int64Val(v.Value); ok {
+				return intV(i)
+			}
 		}
 		return unknownV
 	case *ssa.UnOp:
@@ -242,6 +248,25 @@ func (e *evaluator) eval1(v ssa.Value, depth int) aval {
 			}
 			if r, ok := e.notIn(v.Y, x); ok {
 				return boolV(r == (v.Op == token.NEQ))
+			}
+			return unknownV
+		}
+		if v.Op == token.GTR || v.Op == token.LSS || v.Op == token.GEQ || v.Op == token.LEQ {
+			x, y := e.eval(v.X, depth+1), e.eval(v.Y, depth+1)
+			if x.k == 3 || y.k == 3 {
+				return undefV
+			}
+			if x.k == 4 && y.k == 4 {
+				switch v.Op {
+				case token.GTR:
+					return boolV(x.i > y.i)
+				case token.LSS:
+					return boolV(x.i < y.i)
+				case token.GEQ:
+					return boolV(x.i >= y.i)
+				case token.LEQ:
+					return boolV(x.i <= y.i)
+				}
 			}
 			return unknownV
 		}
